@@ -11,22 +11,31 @@ MCKindOrder == <<"http", "https", "tcp", "tcp+sni", "grpc", "https+tcp+sni", "tc
 MCKindOrder4 == <<"http", "tcp", "grpc", "https+tcp+sni">>
 \* listeners that share their port with another listener of the configuration, on another local address
 MCKindOrderTwins == <<"http", "tcp", "grpc", "http~2", "tcp~2", "grpc~2", "tcp+sni~2">>
-MCTunnelKinds == {"tcp", "tcp+sni", "https+tcp+sni", "tcp+tls", "tcp~2", "tcp+sni~2"}
+MCTunnelKinds == {"tcp", "tcp+sni", "https+tcp+sni", "tcp+tls", "tcp~2", "tcp+sni~2", "tcp-dyn"}
 MCGrpcKinds == {"grpc", "grpc~2"}
 \* servers that proxy.serve starts in two steps the harness can take apart (not the tcpproxy-based one)
 MCNoKinds == {}
+\* "tcp-dyn" is a proto=tcp-dynamic listener with a certificate source: TLS is terminated on the dynamic port,
+\* and the listener is closed when the route of its port goes
+MCKindOrderDyn == <<"http", "tcp", "grpc", "tcp-dyn">>
+MCDynKinds == {"tcp-dyn"}
+\* "reset": a tunnel whose client connection was reset while the upstream keeps its side open (never ends)
+MCDurOrderDyn == <<"short", "inf", "reset">>
 MCLateKinds == {"http", "https", "tcp", "tcp+sni", "grpc", "tcp+tls"}
 MCDurOrder == <<"short", "long", "inf", "mute">>
 \* work that ends just within the wait, and connections that never get as far as a request: the client
 \* connected and sends nothing, or stops in the middle of its TLS ClientHello
-MCDurOrderEdge == <<"short", "edge", "stall">>
+\* stall0: nothing sent; stall1: part of the first protocol message (HTTP/2 preface, TLS ClientHello, HTTP
+\* request head); stall2: the first message complete, then silence (preface without SETTINGS, ClientHello
+\* without the rest of the handshake, request head without its body)
+MCDurOrderEdge == <<"short", "edge", "stall0", "stall1", "stall2">>
 \* short < edge < W < long; inf never ends; mute never ends either (half-closed tunnel, silent upstream);
 \* stall never ends
-MCDur == [d \in {"short", "edge", "long", "inf", "mute", "stall"} |->
+MCDur == [d \in {"short", "edge", "long", "inf", "mute", "stall0", "stall1", "stall2", "reset"} |->
              CASE d = "short" -> 1 [] d = "edge" -> W - 1 [] d = "long" -> W + 2 [] OTHER -> -1]
 
 ItemJson(it) == [srv |-> it.srv, dur |-> it.dur, at |-> it.at, st |-> it.st]
-Scenario == [kinds |-> kinds, tstart |-> tstart, tret |-> clock, w |-> W, late |-> late,
+Scenario == [kinds |-> kinds, tstart |-> tstart, tret |-> clock, w |-> W, late |-> late, removed |-> removed, signals |-> signals,
              items |-> [i \in DOMAIN items |-> ItemJson(items[i])]]
 
 GenNext == /\ Next
